@@ -35,6 +35,7 @@ import CaddyModel.C16.Spec
 import CaddyModel.Gen.Glue
 import CaddyModel.Gen.MapRanges
 import CaddyModel.Gen.AdapterSources
+import CaddyModel.Gen.WeakStringMarshal
 import CaddyModel.C16.Lemmas
 import CaddyModel.C16.Witness
 import CaddyModel.C16.LexProps
@@ -45,6 +46,7 @@ import CaddyModel.C16.ServerOptsProps
 import CaddyModel.C16.AddrProps
 import CaddyModel.C16.NormalizeProps
 import CaddyModel.C16.MapSortProps
+import CaddyModel.C16.WeakStringProps
 
 namespace CaddyModel.C16
 
@@ -344,6 +346,14 @@ theorem adapter_plain_sorts_matches_source :
   decide
 
 example : comparatorSortClassification.length = 6 ∧ Gen.adapterSortCalls.length = 21 := by decide
+
+
+/-- second line of defence for the status-code encoder (WeakString.lean; the op `ws` and the numeric-spelling stream
+are what produce the failing input): `WeakString.MarshalJSON` returns the two boolean literals and otherwise ONLY what
+json.Marshal wrote — of the int (`weakMarshal`'s `intText`), of the string (`jsonQuote`) — never the token text -/
+theorem weakstring_marshal_returns_matches_source :
+    Gen.weakStringMarshalReturns =
+      ["[]byte(\"true\")", "[]byte(\"false\")", "json.Marshal(num)", "json.Marshal(string(ws))"] := by decide
 
 
 end CaddyModel.C16
